@@ -846,6 +846,10 @@ func features(ss []*Stmt, f map[string]bool, blockLbls map[int]bool, seenLoopLbl
 				// the second compilation of the enclosing REPEAT body finds this label already registered
 				f["reused-label"] = true
 			}
+			if s.K == "repeat" && s.L != 0 && len(s.Body) > 0 && s.Body[len(s.Body)-1].K == "block" && containsIterate(s.Body, s.L) {
+				// ITERATE from the first copy is a forward jump that skips the ScopeEnd the body ends with
+				f["iterate-repeat-ending-in-block"] = true
+			}
 			if s.K == "repeat" && !inRepeat {
 				nb := map[int]bool{-1: true}
 				for k := range blockLbls {
@@ -1100,7 +1104,7 @@ func run(c *lib.Ctx, cs *caseT) {
 	}
 	// one root cause per signature: the first applicable shape in this order names the disagreement
 	fsig = "plain"
-	for _, f := range []string{"handler-assigns-user-variable", "reused-label", "nested-handlers", "exit-handler-leak", "until-null", "leave-block", "else-ends-with-block", "declare-null"} {
+	for _, f := range []string{"handler-assigns-user-variable", "reused-label", "nested-handlers", "exit-handler-leak", "until-null", "iterate-repeat-ending-in-block", "leave-block", "else-ends-with-block", "declare-null"} {
 		for _, g := range fs {
 			if g == f {
 				fsig = f
@@ -1288,6 +1292,12 @@ func main() {
 				{K: "repeat", E: bin("Eq", v(2), k(1)), Body: []*Stmt{
 					{K: "set", ID: 1, E: bin("Add", v(1), k(1))},
 					{K: "if", E: bin("Le", k(3), v(1)), Body: []*Stmt{{K: "set", ID: 2, E: k(1)}}}}},
+				{K: "setuser", ID: 0, E: v(1)}}}}},
+			// ITERATE of a REPEAT whose body ends with a block (Coq: iterate_repeat_prog)
+			&caseT{NUsers: 3, Params: []int64{0, 0}, Body: []*Stmt{{K: "block", Body: []*Stmt{
+				{K: "declare", ID: 1, Z: i64(1)},
+				{K: "repeat", L: 1, E: k(1), Body: []*Stmt{{K: "block", Body: []*Stmt{
+					{K: "declare", ID: 1, Z: i64(2)}, {K: "if", E: k(1), Body: []*Stmt{{K: "iterate", L: 1}}}}}}},
 				{K: "setuser", ID: 0, E: v(1)}}}}},
 			// unhandled condition: CALL must fail
 			&caseT{NUsers: 3, Params: []int64{0, 0}, Body: []*Stmt{{K: "block", Body: []*Stmt{
